@@ -36,7 +36,7 @@ def cases(rng, tier, shard, nshards):
         yield dict(n=n, m=m, method=['central', 'forward', 'complex'][i % 3],
                    family=str(rng.choice(['affine', 'smooth'])), seed=int(rng.integers(0, 2 ** 31)),
                    step=None if rng.random() < 0.6 else float(10.0 ** rng.uniform(-7, -4)),
-                   bounds=str(rng.choice(['none', 'box', 'on_lower', 'on_upper', 'tight'])),
+                   bounds=str(rng.choice(['none', 'box', 'on_lower', 'on_upper', 'tight', 'scalar_zero_lower', 'scalar_zero_upper', 'scalar'])),
                    gradient=bool(rng.random() < 0.3), xshape=str(rng.choice(['vector', 'matrix', 'matrix', 'scalar'])))
 
 
@@ -52,6 +52,9 @@ def run_case(case, ctx):
     b = rng.normal(size=m)
     x = rng.uniform(-2, 2, size=n)
     x = np.where(np.abs(x) < 0.05, 0.5, x)
+    if case['bounds'] in ('scalar_zero_lower', 'scalar_zero_upper'):
+        x = np.abs(x) if case['bounds'] == 'scalar_zero_lower' else -np.abs(x)
+        x[case['seed'] % n] = 0.0           # one coordinate exactly on the limit 0
     if case['family'] == 'affine' and method == 'complex' and case['bounds'] == 'none' and case['step'] is None and case['seed'] % 2 == 0:
         # magnitude classes (affine maps with the complex method and its default step: exact to rounding whatever the unit of x;
         # a user-given relative step times a tiny |x| is a subnormal step, which is the user's choice): some coordinates tiny, some huge, one exactly 0
@@ -85,7 +88,20 @@ def run_case(case, ctx):
     rec = Recorder(f)
     kw = dict(method=method, step=case['step'])
     lb = ub = None
-    if case['bounds'] != 'none':
+    if case['bounds'] in ('scalar_zero_lower', 'scalar_zero_upper', 'scalar'):
+        # one scalar limit for every coordinate (scipy broadcasts it); the limit 0 written as 0, 0.0 or -0.0 is a limit like
+        # any other, and some coordinates sit exactly on it
+        ctx.count('bounds_active_cases')
+        ctx.count('scalar_bounds_cases')
+        if case['bounds'] == 'scalar':
+            lo_s, hi_s = float(np.min(x) - rng.uniform(0.0, 0.3)), float(np.max(x) + rng.uniform(0.0, 0.3))
+            kw['bounds'] = (lo_s, hi_s)
+        else:
+            zero = [0, 0.0, -0.0, np.float64(0.0)][case['seed'] % 4]
+            kw['bounds'] = (zero, np.inf) if case['bounds'] == 'scalar_zero_lower' else (-np.inf, zero)
+            lo_s, hi_s = (0.0, np.inf) if case['bounds'] == 'scalar_zero_lower' else (-np.inf, 0.0)
+        lb, ub = np.full(n, lo_s), np.full(n, hi_s)
+    elif case['bounds'] != 'none':
         width = 10.0 ** rng.uniform(-3, 0) if case['bounds'] == 'tight' else rng.uniform(0.5, 2.0)
         lb, ub = x - width * rng.uniform(0.1, 1, n), x + width * rng.uniform(0.1, 1, n)
         if case['bounds'] == 'on_lower':
